@@ -680,6 +680,9 @@ var canon = map[*ssa.Function]string{}
 // SetCanon makes the evaluator look fn up under name.
 func SetCanon(fn *ssa.Function, name string) { canon[fn] = name }
 
+// CanonFuncName is the name the models know fn by.
+func CanonFuncName(fn *ssa.Function) string { return fnKey(fn) }
+
 func fnKey(fn *ssa.Function) string {
 	if o := fn.Origin(); o != nil {
 		fn = o
